@@ -9,7 +9,7 @@ func (c *syntaxBasicNilTypeValidator) validate(values []interface{}) bool {
 		switch values[index].(type) {
 		case nil:
 			foundValue = true
-		case struct{}:
+		case emptyEntityType:
 		default:
 			values[index] = emptyEntity
 		}
